@@ -128,6 +128,11 @@ def smoothers(ctx):
     probs = [('poisson-6x6', sp.csr_array(poisson((6, 6), format='csr')), np.ones((36, 1)))]
     A, B = linear_elasticity((4, 4))
     probs.append(('elasticity-4x4', sp.bsr_array(A, blocksize=(2, 2)), B))
+    # the same operator in other units per unknown (D A D, candidates D^-1 B): the diagonal blocks are no longer
+    # multiples of the identity, so block-diagonal scaling from the left and from the right differ
+    dsc = np.array([1.0 + 0.5 * rng.random() for _ in range(A.shape[0])])
+    Asc = sp.bsr_array(sp.csr_array(sp.diags_array(dsc) @ sp.csr_array(A) @ sp.diags_array(dsc)), blocksize=(2, 2))
+    probs.append(('elasticity-4x4-rescaled', Asc, B / dsc[:, None]))
     variants = [('jacobi', {}), ('jacobi', {'degree': 2, 'omega': 1.0}), ('jacobi', {'filter_entries': True}),
                 ('jacobi', {'filter_entries': True, 'degree': 2}), ('jacobi', {'filter_entries': True, 'degree': 3, 'weighting': 'local'}),
                 ('jacobi', {'weighting': 'local'}), ('richardson', {}), ('richardson', {'degree': 2}), ('richardson', {'degree': 3, 'omega': 1.0}),
